@@ -427,6 +427,7 @@ func genC06(g *Gen) {
 	if p.Variant == "huge" {
 		maxKeys = 5000
 		p.Sched.MaxSteps = 1500
+		p.Proxy.BufCap = 65536 // rcproxy re-parses the buffered request on every read: keep the harness knob at the shipped value for huge requests
 	}
 	nc := g.R.Range(1, 3)
 	for ci := 0; ci < nc; ci++ {
